@@ -1,17 +1,144 @@
-(** C20 — Graphviz export.  Abstract DOT body: exactly one node statement per concept named
-    by its index; the plain edges are exactly concept -> each lower neighbour.  That lower
-    neighbours are the lower covers is C05; the label statements follow C10 ([_partial]:
-    correspondence).  Not modelled: graphviz's line syntax and quoting. *)
+(** C20 — Graphviz export.
+
+    "the DOT source declares exactly one node per concept (named by its index), exactly one
+    undirected edge per covering pair, drawn from a concept to each of its lower neighbors and
+    nowhere else, and attaches an object label, resp. property label, precisely when the concept
+    carries objects, resp. properties, in the reduced labelling, with the text produced from
+    exactly those names."
+
+    Scope: [dot_body L] is the ABSTRACT body of the Digraph built by visualize.lattice: a list of
+    statements [DNode i] (node named by index i), [DHead i objs] / [DTail i props] (the object /
+    property label attached to node i, carrying the label's names as positions in the context),
+    [DEdge i j] (plain edge from node i to node j; the graph is drawn with dir=none).
+    NOT MODELLED: the graphviz package's line syntax and quoting, and the rendering of a label's
+    names into text (the harness parses Digraph.body back into these statements).
+
+    END-TO-END: [L] is the value returned by the model of [Context.lattice] ([build_lattice],
+    satisfiable by [C03_terminates]); [concept_at L i x]: [x] is its i-th member (whose index is
+    i, C06).  That the lower neighbours are the lower covers is C05, the content of the labels
+    is C10; both are composed here ([C20_edge_covers], [C20_label_content]). *)
 From Coq Require Import ZArith List Bool.
-From Concepts Require Import Base.Res Base.PyInt Base.BitSet Spec.FCA Spec.Context
+From Concepts Require Import Base.Res Base.PyInt Base.BitSet Spec.FCA Spec.Context Spec.LatticeSpec
   Model.Matrices Model.ContextApi Model.Members Model.Lattice Model.LatticeApi
-  Proofs.Matrices Proofs.ContextApi Proofs.Closure Proofs.LatticeBasics Proofs.LatticeFirst.
+  Proofs.Matrices Proofs.ContextApi Proofs.Closure Proofs.LatticeBasics Proofs.LatticeFirst
+  Proofs.BuildLattice Proofs.LatticeLabels Proofs.Assemble.
 Import ListNotations.
 Open Scope Z_scope.
 
+(** * nodes: exactly one per concept, named by its index, in iteration order *)
+
 Theorem C20_nodes : forall L, filter is_node (dot_body L) = map (fun c => DNode (c_index c)) (l_concepts L).
 Proof. exact dot_nodes. Qed.
+
+Theorem C20_nodes_by_index : forall fuel dfuel c L,
+  wf_ctx c -> (Nat.max (nG c) (nM c) <= dfuel)%nat -> build_lattice fuel dfuel (relation_new c) = Ok L ->
+  filter is_node (dot_body L) = map DNode (seq 0 (length (l_concepts L))).
+Proof.
+  intros fuel dfuel c L Hwf Hd HB.
+  exact (dot_nodes_seq c L (build_lattice_ok fuel dfuel c L Hwf Hd HB)).
+Qed.
+
+Theorem C20_node_iff : forall fuel dfuel c L i,
+  wf_ctx c -> (Nat.max (nG c) (nM c) <= dfuel)%nat -> build_lattice fuel dfuel (relation_new c) = Ok L ->
+  (In (DNode i) (dot_body L) <-> (i < length (l_concepts L))%nat).
+Proof.
+  intros fuel dfuel c L i Hwf Hd HB.
+  exact (dot_node_iff c L (build_lattice_ok fuel dfuel c L Hwf Hd HB) i).
+Qed.
+
+(** * edges: from a concept to each of its lower neighbours and nowhere else *)
+
 Theorem C20_edges : forall L,
   filter is_edge (dot_body L) =
   flat_map (fun c => map (fun j => DEdge (c_index c) j) (sort_by (fun j => (Z.of_nat j, 0)) (c_lower c))) (l_concepts L).
 Proof. exact dot_edges. Qed.
+
+Theorem C20_edge_iff : forall fuel dfuel c L i j,
+  wf_ctx c -> (Nat.max (nG c) (nM c) <= dfuel)%nat -> build_lattice fuel dfuel (relation_new c) = Ok L ->
+  (In (DEdge i j) (dot_body L) <-> exists x, concept_at L i x /\ In j (c_lower x)).
+Proof.
+  intros fuel dfuel c L i j Hwf Hd HB.
+  exact (dot_edge_iff c L (build_lattice_ok fuel dfuel c L Hwf Hd HB) i j).
+Qed.
+
+(** ... i.e. exactly the covering pairs (upper member first) *)
+Theorem C20_edge_covers : forall fuel dfuel c L i j,
+  wf_ctx c -> (Nat.max (nG c) (nM c) <= dfuel)%nat -> build_lattice fuel dfuel (relation_new c) = Ok L ->
+  (In (DEdge i j) (dot_body L) <->
+   exists x y, concept_at L i x /\ concept_at L j y /\ covers c (c_extent y) (c_extent x)).
+Proof.
+  intros fuel dfuel c L i j Hwf Hd HB.
+  exact (dot_edge_covers c L (build_lattice_ok fuel dfuel c L Hwf Hd HB) i j).
+Qed.
+
+(** exactly one edge per covering pair; more generally no statement occurs twice *)
+Theorem C20_edges_NoDup : forall fuel dfuel c L,
+  wf_ctx c -> (Nat.max (nG c) (nM c) <= dfuel)%nat -> build_lattice fuel dfuel (relation_new c) = Ok L ->
+  NoDup (filter is_edge (dot_body L)).
+Proof.
+  intros fuel dfuel c L Hwf Hd HB.
+  exact (dot_edges_NoDup c L (build_lattice_ok fuel dfuel c L Hwf Hd HB)).
+Qed.
+
+Theorem C20_body_NoDup : forall fuel dfuel c L,
+  wf_ctx c -> (Nat.max (nG c) (nM c) <= dfuel)%nat -> build_lattice fuel dfuel (relation_new c) = Ok L ->
+  NoDup (dot_body L).
+Proof.
+  intros fuel dfuel c L Hwf Hd HB.
+  exact (dot_body_NoDup c L (build_lattice_ok fuel dfuel c L Hwf Hd HB)).
+Qed.
+
+(** * labels: attached precisely when the concept carries objects / properties, with exactly
+      those names *)
+
+Theorem C20_labels : forall fuel dfuel c L i objs props,
+  wf_ctx c -> (Nat.max (nG c) (nM c) <= dfuel)%nat -> build_lattice fuel dfuel (relation_new c) = Ok L ->
+  (In (DHead i objs) (dot_body L) <-> exists x, concept_at L i x /\ c_objects x = objs /\ objs <> []) /\
+  (In (DTail i props) (dot_body L) <-> exists x, concept_at L i x /\ c_properties x = props /\ props <> []).
+Proof.
+  intros fuel dfuel c L i objs props Hwf Hd HB.
+  exact (dot_labels c L (build_lattice_ok fuel dfuel c L Hwf Hd HB) i objs props).
+Qed.
+
+Theorem C20_label_head : forall fuel dfuel c L i objs,
+  wf_ctx c -> (Nat.max (nG c) (nM c) <= dfuel)%nat -> build_lattice fuel dfuel (relation_new c) = Ok L ->
+  (In (DHead i objs) (dot_body L) <-> exists x, concept_at L i x /\ c_objects x = objs /\ objs <> []).
+Proof.
+  intros fuel dfuel c L i objs Hwf Hd HB.
+  exact (dot_labels_head c L (build_lattice_ok fuel dfuel c L Hwf Hd HB) i objs).
+Qed.
+
+Theorem C20_label_tail : forall fuel dfuel c L i props,
+  wf_ctx c -> (Nat.max (nG c) (nM c) <= dfuel)%nat -> build_lattice fuel dfuel (relation_new c) = Ok L ->
+  (In (DTail i props) (dot_body L) <-> exists x, concept_at L i x /\ c_properties x = props /\ props <> []).
+Proof.
+  intros fuel dfuel c L i props Hwf Hd HB.
+  exact (dot_labels_tail c L (build_lattice_ok fuel dfuel c L Hwf Hd HB) i props).
+Qed.
+
+(** the names on an attached label are those of the reduced labelling (C10): the objects whose
+    object concept, resp. the properties whose attribute concept, is the labelled concept *)
+Theorem C20_label_content : forall fuel dfuel c L i x,
+  wf_ctx c -> (Nat.max (nG c) (nM c) <= dfuel)%nat -> build_lattice fuel dfuel (relation_new c) = Ok L ->
+  concept_at L i x ->
+  (forall o, In o (c_objects x) <-> (o < nG c)%nat /\ c_extent x = clO c (bit o)) /\
+  (forall p, In p (c_properties x) <-> (p < nM c)%nat /\ c_extent x = upM c (bit p)).
+Proof.
+  intros fuel dfuel c L i x Hwf Hd HB Hx. pose proof (build_lattice_ok fuel dfuel c L Hwf Hd HB) as OK.
+  split; [intros o; exact (ok_objects c L OK i x o Hx)|intros p; exact (ok_properties c L OK i x p Hx)].
+Qed.
+
+(** * witness: rows {0,1}, {1,2}, {2,3}, {0,1,2}: the whole abstract body *)
+Example C20_witness :
+  let c := mkCtx 4 4 [3; 6; 12; 7] in
+  wf_ctx c /\ (Nat.max (nG c) (nM c) <= 4)%nat /\
+  exists L, build_lattice 20 4 (relation_new c) = Ok L /\
+    dot_body L
+    = [DNode 0; DNode 1; DHead 1 [2]; DTail 1 [3]; DEdge 1 0; DNode 2; DHead 2 [3]; DEdge 2 0;
+       DNode 3; DHead 3 [0]; DTail 3 [0]; DEdge 3 2; DNode 4; DHead 4 [1]; DEdge 4 2;
+       DNode 5; DTail 5 [1]; DEdge 5 3; DEdge 5 4; DNode 6; DTail 6 [2]; DEdge 6 1; DEdge 6 4;
+       DNode 7; DEdge 7 5; DEdge 7 6]%nat.
+Proof.
+  cbv zeta. split; [apply wf_ctxb_sound; vm_compute; reflexivity|]. split; [apply le_by_leb; vm_compute; reflexivity|].
+  apply witness_intro. vm_compute. reflexivity.
+Qed.
